@@ -543,7 +543,7 @@ def gen_source(rng, allow_generated=True):
 
 # --------------------------------------------------------------------------- generated documents
 
-INLINE_KINDS = ["text", "s", "tab", "lb", "span", "link", "note", "annotation", "frame", "bookmark", "refmark", "spaces"]
+INLINE_KINDS = ["text", "s", "tab", "lb", "span", "link", "note", "annotation", "frame", "bookmark", "refmark", "spaces", "nbsp", "nnbsp"]
 
 
 def gen_doc_spec(rng, kind=None):
@@ -580,6 +580,15 @@ def build_paragraph(pieces, heading=False, rng=None, counter=[0]):
             p.append_plain_text(word() + " " + word())
         elif k == "spaces":
             p.append_plain_text("  " + word() + "   ")
+        elif k in ("nbsp", "nnbsp"):
+            # a blank that is not XML white space, alone in its text node (French typography: a narrow no-break
+            # space between a note call and the punctuation mark)
+            ch = "\u00a0" if k == "nbsp" else "\u202f"
+            kids = p.children
+            if kids:
+                kids[-1].tail = (kids[-1].tail or "") + ch
+            else:
+                p.text = (p.text or "") + ch
         elif k == "s":
             p.append(Element.from_tag("text:s"))
         elif k == "tab":
@@ -923,6 +932,12 @@ def save_doc(doc, how, tmpdir, pretty=False, tag="", reuse=None):
         h = zlib.crc32(f"folder/{tag}".encode())
         base = FOLDER_NAMES[h % len(FOLDER_NAMES)]
         path = os.path.join(tmpdir, f"t{tag}_{base}")
+        if reuse is not None and reuse.get("occupant") and not reuse.get("occupied"):
+            # the place is taken by a folder save of another document (with pictures this one does not have)
+            from odfdo import Document
+
+            Document(os.path.join(SAMPLES, reuse["occupant"])).save(path, packaging="folder")
+            reuse["occupied"] = True
         doc.save(path + ".folder" if (h >> 8) % 3 == 0 else path, packaging="folder", pretty=pretty)
         if not os.path.isdir(path + ".folder"):
             raise ArtefactMissing(f"saved as folder to {os.path.basename(path)!r}: no directory {os.path.basename(path)}.folder (found: {sorted(os.listdir(tmpdir))[:6]})")
